@@ -4,6 +4,9 @@ import json, os, subprocess, sys
 ROOT = os.path.dirname(os.path.dirname(os.path.abspath(__file__)))
 
 CLAIMED = {
+ "C19": ("exploration", "exhaustive enumeration (all indices, trace depths, pack counts at N<=32/64) + property-based testing against a coefficient-placement oracle on decrypted vectors",
+         "Generated-input search: for N in {4,..,32} (thorough 64) in the three schemes every coefficient index through extract+assemble in either input representation, every trace parameter and every pack count 1..N, plus random parameter sets up to N=64 (thorough 1024) with random term selections and seed-compressed automorphism keys. Decrypted coefficient vectors (exact modulo t in BFV/BGV; exact integers via own CRT within worst-case noise in CKKS) must show m_i in the constant coefficient, (N/2^l) m_j exactly on multiples of N/2^l and zero elsewhere, and the k packed values at stride N/2^ceil(log2 k).",
+         "Trusted: noise model DESIGN.md §4 with generous factors for merge/trace rounds; own CRT.", "DESIGN.md §6 C19"),
  "C16": ("exploration", "property-based testing (proptest) with metamorphic stream oracles (chunking / call-sequence independence), history-based freshness invariants and deterministic-seeded distribution tests",
          "Generated-input search: the seeded generator's output is compared across chunkings that cross several buffer refills at unaligned offsets, across repeated identical call sequences, across one-bit seed changes and for repetition over 1 MiB per seed kind; samplers are checked for RNS-consistent small signed values, |e| <= 21, uniform range and (on 2^20 draws per seed) for their distributions at p = 1e-9 with confirmation; histories of up to 50 encryptions and key generations (with the entropy hook removed) must never repeat a mask polynomial or stored seed, while identical explicit generator state must reproduce the mask, and seeded objects must expand identically twice and in an independently built context.",
          "Trusted: blake3 crate only for the informational cross-check; freshness is asserted for N >= 16 (below that the public-key mask space 3^N admits honest birthday collisions).", "DESIGN.md §6 C16"),
